@@ -83,6 +83,39 @@ def quote(name: str, style: str='|') -> str:
         return name
 
 
+_smtlib_escape_prog = re.compile(r"\\u\{([0-9a-fA-F]{1,5})\}|\\u([0-9a-fA-F]{4})")
+
+def smtlib_string_literal(value: str) -> str:
+    """Returns the SMT-LIB 2.6 string literal (quotes included) denoting value.
+
+    String constants of the theory contain printable ASCII characters
+    only: a quote is doubled, the other characters (and a backslash
+    that would otherwise start an escape sequence) are written as \\u{X}.
+    """
+    res = []
+    for i, c in enumerate(value):
+        if c == '"':
+            res.append('""')
+        elif c == "\\" and value[i+1:i+2] == "u":
+            res.append("\\u{5c}")
+        elif 0x20 <= ord(c) <= 0x7E:
+            res.append(c)
+        else:
+            res.append("\\u{%x}" % ord(c))
+    return '"%s"' % "".join(res)
+
+
+def smtlib_string_value(body: str) -> str:
+    """Returns the value of the SMT-LIB 2.6 string literal with the given
+    content (without the enclosing quotes)."""
+    def _unescape(m):
+        code = int(m.group(1) or m.group(2), 16)
+        if code > 0x2FFFF:
+            return m.group(0)
+        return chr(code)
+    return _smtlib_escape_prog.sub(_unescape, body.replace('""', '"'))
+
+
 # utility function to narrow a type from Optional[T] to [T] without having to assert it is not None
 def assert_not_none(value: Optional[T]) -> T:
     assert value is not None, "Value: '%s' must not be None" % str(value)
